@@ -280,6 +280,19 @@ def _from_chunk_relative(ctx, B, what, cls, blocks, strand, cs, ce, g):
     ctx.label("from_chunk_relative_location")
 
 
+def _other_question_order(ctx, B2, what, blocks, strand, cs, ce, g):
+    """a second object of the same spec asked in the other order: the whole-span sequences first, the spliced one afterwards"""
+    inside = [p for p in rm.positions(blocks, strand) if cs <= p < ce]
+    if not inside:
+        return
+    try:
+        B2.get_genomic_sequence()
+        B2.get_reference_sequence()
+        ctx.eq(what + ":spliced_sequence_asked_after_genomic", str(B2.get_spliced_sequence()), rm.seq_image(g, inside, strand))
+    except (BioCantorException, ValueError) as e:
+        ctx.fail(what + ":sequences_in_other_order_raise", repr(e)[:120])
+
+
 def check_view(spec, ctx):
     kind = spec["kind"]
     g = spec["genome"]
@@ -312,6 +325,7 @@ def check_view(spec, ctx):
         check_interval_view(ctx, A, B, o["blocks"], o["strand"], cs, ce, g, "feature", cst)
         check_conversions(ctx, A, B, "feat", o["blocks"], o["strand"], None, cs, ce, "feature")
         _from_chunk_relative(ctx, B, "feature", type(B), o["blocks"], o["strand"], cs, ce, g)
+        _other_question_order(ctx, mkfeat(o, PB), "feature", o["blocks"], o["strand"], cs, ce, g)
         Bp = A.liftover_to_parent_or_seq_chunk_parent(PB)
         ctx.eq("feature:relifted_equals_built", (norm_dict(Bp.to_dict()), rm.loc_blocks(Bp.chunk_relative_location) if not Bp.chunk_relative_location.is_empty else []),
                (norm_dict(B.to_dict()), rm.loc_blocks(B.chunk_relative_location) if not B.chunk_relative_location.is_empty else []))
@@ -345,6 +359,7 @@ def check_view(spec, ctx):
                 if not clip_tie:
                     check_cds_view(ctx, A.cds, B.cds, cspec, cs, ce, g, "transcript_cds", cst=cst)
         _from_chunk_relative(ctx, B, "transcript", type(B), o["exons"], o["strand"], cs, ce, g)
+        _other_question_order(ctx, mktx(o, PB), "transcript", o["exons"], o["strand"], cs, ce, g)
         Bp = A.liftover_to_parent_or_seq_chunk_parent(PB)
         ctx.eq("transcript:relifted_to_dict", norm_dict(Bp.to_dict()), norm_dict(B.to_dict()))
     elif kind == "gene":
